@@ -9,6 +9,8 @@ From SU Require Import F32 F32Lemmas.
 From SU.Model Require Import Glide.
 From SU.Spec Require Import GlideSpec.
 From SU.Proofs Require Import GlideCoeffProofs GlideFilterProofs.
+From SU.Spec Require Import RunSpec.
+From SU.Proofs Require Import GlideExtraProofs.
 Open Scope R_scope.
 
 (** for every sample rate in [100 Hz, 48 kHz] and every schedule of set_time calls with
@@ -70,8 +72,68 @@ Theorem C13_settles : forall d x B n kappa,
   Rabs (R32 (d_y1 d') - R32 x) <= p ^ n * Rabs (R32 (d_y1 d) - R32 x) + 2 * resolution kappa * B.
 Proof. exact settles_partial. Qed.
 
+(** the first sample after an input change: y = b (x + x_prev) + p y_prev up to 11.5*2^-24*B *)
+Theorem C13_first_sample_formula : forall d x B,
+  good (d_c d) -> df1_bounded d B -> fin x -> Rabs (R32 x) <= B ->
+  bpow radix2 (-100) <= B -> B <= bpow radix2 100 ->
+  let y := snd (df1_run d x) in
+  let p := pole (d_c d) in
+  let b := R32 (k_b0 (d_c d)) in
+  fin y /\
+  Rabs (R32 y - ((1 - p) / 2 * (R32 x + R32 (d_x1 d)) + p * R32 (d_y1 d))) <= 15 / 2 * / 16777216 * B /\
+  Rabs (R32 y - (b * (R32 x + R32 (d_x1 d)) + p * R32 (d_y1 d))) <= 23 / 2 * / 16777216 * B.
+Proof. exact first_sample_formula. Qed.
+
+(** so it stays in the hull of the new input, the previous input and the previous output *)
+Theorem C13_first_sample_hull : forall d x B,
+  good (d_c d) -> df1_bounded d B -> fin x -> Rabs (R32 x) <= B ->
+  bpow radix2 (-100) <= B -> B <= bpow radix2 100 ->
+  let y := R32 (snd (df1_run d x)) in
+  let lo := Rmin (R32 x) (Rmin (R32 (d_x1 d)) (R32 (d_y1 d))) in
+  let hi := Rmax (R32 x) (Rmax (R32 (d_x1 d)) (R32 (d_y1 d))) in
+  lo - 16 * / 16777216 * B <= y <= hi + 16 * / 16777216 * B /\
+  (0 <= pole (d_c d) -> lo - 15 / 2 * / 16777216 * B <= y <= hi + 15 / 2 * / 16777216 * B).
+Proof. exact first_sample_hull. Qed.
+
+(** why C13_approach starts at the second sample of a constant stretch: at the fastest setting (two-tap average) the inputs 1, 0.6, 0.6, 0.6 give 0.5, 0.8, 0.6, 0.6; the output that was below the new target when the input changed is above it one sample later, and from there on it approaches monotonically *)
+Theorem C13_first_sample_crossing_witness :
+  run_bits w_fs w_ops
+  = Some [Some 1056964608; Some 1061997773; Some 1058642330; Some 1058642330]%Z /\
+  (* 0x3f000000 = 0.5, 0x3f4ccccd = 0.8f32, 0x3f19999a = 0.6f32 *)
+  w_crossing = true /\
+  R32 w_fs = 1000 /\ R32 w_1 = 1 /\ R32 w_06 = 5033165 / 8388608 /\
+  R32 (of_bits 1056964608) = / 2 /\ R32 (of_bits 1061997773) = 13421773 / 16777216.
+Proof. exact first_sample_crossing_witness. Qed.
+
+(** settling with the sharp constants: resolution*B in general, half of it for non-negative poles *)
+Theorem C13_settles_sharp : forall d x B n kappa,
+  good (d_c d) -> kappa <= speed (d_c d) -> / 100000 <= kappa ->
+  df1_bounded d B -> fin x -> Rabs (R32 x) <= B ->
+  bpow radix2 (-100) <= B -> B <= bpow radix2 64 -> d_x1 d = x ->
+  let y := d_y1 (fst (run_const d x n)) in
+  let p := Rmax 0 (pole (d_c d)) in
+  Rabs (R32 y - R32 x) <= p ^ n * Rabs (R32 (d_y1 d) - R32 x) + resolution kappa * B /\
+  (0 <= pole (d_c d) ->
+   Rabs (R32 y - R32 x) <= p ^ n * Rabs (R32 (d_y1 d) - R32 x) + resolution kappa / 2 * B).
+Proof. exact settles_sharp. Qed.
+
+(** the constant 16 in the hull tolerance is the least integer as long as poles down to -2^-22 are admitted *)
+Theorem C13_hull_constant_needed : ~ (forall p kappa lo hi x x1 y1 out,
+  - / 4194304 <= p < 1 -> kappa <= 1 - p -> / 100000 <= kappa -> lo <= 0 <= hi ->
+  let M := Rmax (- lo) hi in
+  let E := 15 * u24 / kappa * M in
+  lo <= x <= hi -> lo <= x1 <= hi -> lo - E <= y1 <= hi + E ->
+  Rabs (out - ((1 - p) / 2 * (x + x1) + p * y1)) <= 15 / 2 * u24 * (M + E) ->
+  lo - E <= out <= hi + E).
+Proof. exact hull_real_15_false. Qed.
+
 Print Assumptions C13_coeffs_good.
 Print Assumptions C13_one_step.
 Print Assumptions C13_hull.
 Print Assumptions C13_approach.
 Print Assumptions C13_settles.
+Print Assumptions C13_first_sample_formula.
+Print Assumptions C13_first_sample_hull.
+Print Assumptions C13_first_sample_crossing_witness.
+Print Assumptions C13_settles_sharp.
+Print Assumptions C13_hull_constant_needed.
